@@ -7,6 +7,7 @@ import (
 	"encoding/hex"
 	"encoding/json"
 	"fmt"
+	"os"
 	"strings"
 	"unicode/utf8"
 
@@ -62,6 +63,10 @@ func Run(c *vh.Ctx) {
 	add := func(name, mode, src string) {
 		cases = append(cases, Case{name, mode, hex.EncodeToString([]byte(src))})
 	}
+	if os.Getenv("C18_ONLY") == "nest" && len(c.ReplayRaw) == 0 { // development aid: only the nested error-location streams
+		runNest(c)
+		return
+	}
 	if len(c.ReplayRaw) > 0 {
 		var rc Case
 		if err := json.Unmarshal(c.ReplayRaw, &rc); err != nil {
@@ -70,6 +75,10 @@ func Run(c *vh.Ctx) {
 		}
 		if rc.Kind() == "loc" {
 			runLocReplay(c, c.ReplayRaw)
+			return
+		}
+		if rc.Kind() == "nest" {
+			runNestReplay(c, c.ReplayRaw)
 			return
 		}
 		cases = []Case{rc}
@@ -195,12 +204,13 @@ func Run(c *vh.Ctx) {
 		c.Res.Exhaustive = true
 		c.Res.ExhaustiveWhat = "all corpus files × both modes; all strings of length ≤ 2 over a 31-symbol boundary alphabet × both modes"
 		runLoc(c)
+		runNest(c)
 	}
 }
 
 func (cs Case) Kind() string {
-	if cs.Mode == "loc" {
-		return "loc"
+	if cs.Mode == "loc" || cs.Mode == "nest" {
+		return cs.Mode
 	}
 	return "lex"
 }
